@@ -149,6 +149,7 @@ func (i *interpreter) mapIter(m *smap) iter {
 		rest := append([]*mapEntry(nil), snap...)
 		for len(rest) > 1 {
 			k := i.choose(len(rest), "maporder")
+			i.internalChoices++
 			perm = append(perm, rest[k])
 			rest = append(rest[:k], rest[k+1:]...)
 		}
